@@ -360,6 +360,35 @@ class ScopeGen:
         return "\n".join(lines) + "\n"
 
 
+def pep709_quirk(src):
+    """CPython 3.12 inlines comprehensions (PEP 709); in 3.12.1 a name that is ONLY a comprehension variable in a function
+    but is also used free by a function or class nested in that function is resolved by the nested scope to the (unbound)
+    inlined variable instead of the enclosing binding the language reference prescribes.  Such programs would make CPython
+    a wrong oracle, so the generator does not emit them."""
+    import ast
+    tree = ast.parse(src)
+    for fn in ast.walk(tree):
+        if not isinstance(fn, (ast.FunctionDef, ast.AsyncFunctionDef)):
+            continue
+        comps = [n for n in own_nodes(fn) if isinstance(n, (ast.ListComp, ast.SetComp, ast.DictComp, ast.GeneratorExp))]
+        if not comps:
+            continue
+        inside = {id(m) for c in comps for m in ast.walk(c)}
+        targets = {m.id for c in comps for g in c.generators for m in ast.walk(g.target) if isinstance(m, ast.Name)}
+        bound_outside = {n.id for n in own_nodes(fn) if isinstance(n, ast.Name) and isinstance(n.ctx, ast.Store) and id(n) not in inside}
+        bound_outside |= set(fn_params(fn))
+        only = targets - bound_outside
+        if not only:
+            continue
+        for n in own_nodes(fn):
+            if isinstance(n, (ast.FunctionDef, ast.AsyncFunctionDef, ast.ClassDef)):
+                used = {m.id for m in ast.walk(n) if isinstance(m, ast.Name)}
+                used |= {v for m in ast.walk(n) if isinstance(m, (ast.Nonlocal, ast.Global)) for v in m.names}
+                if used & only:
+                    return True
+    return False
+
+
 def scope_cases(rng, tier):
     out = []
     for t in SCOPE_TEMPLATES:
@@ -376,6 +405,8 @@ def scope_cases(rng, tier):
         try:
             compile(src, "t", "exec")
         except SyntaxError:
+            continue
+        if pep709_quirk(src):
             continue
         seen.add(src)
         out.append(Case({"stream": "scope", "src": src, "features": ["random-nesting"]}, None, tags=["scope", "random-nesting"]))
